@@ -227,6 +227,12 @@ def tempered_stage_count(check, prog):
 
 
 # ----------------------------------------------------------------------
+def ite_leaves(t):
+    if t[0] == 'ite':
+        return ite_leaves(t[2]) + ite_leaves(t[3])
+    return [t]
+
+
 def r1_r2(check, prog, scope, floor=120):
     nparams = 0
     for cq in scope:
@@ -264,6 +270,20 @@ def r1_r2(check, prog, scope, floor=120):
                 fail_detail='self.%s = %s does not depend on the argument: '
                 'the passed value is ignored and lost on save/load'
                 % (p, show(v)[:120]))
+            # ... and what is stored is the argument or a normalised form of it
+            # (list(x), np.array(x), a default filled in for None), which storing
+            # again leaves alone.  Arithmetic on the argument is not: the saver
+            # writes self.<p>, so a constructor that leaves seed + k there is
+            # reloaded from seed + k and leaves seed + 2 k
+            drift = [leaf for leaf in ite_leaves(v) if leaf[0] == 'bin' and
+                     leaf[1] in ('+', '-', '*', '/', '//', '**', '%') and
+                     sym(p) in (leaf[2], leaf[3]) and
+                     any(x[0] == 'num' for x in (leaf[2], leaf[3]))]
+            check.require(not drift, 'R1-arg-stored-as-given', construct,
+                          'self.%s holds the argument, not a number computed from it'
+                          % p, loc,
+                          fail_detail='self.%s = %s when __init__ returns: saved, '
+                          'and computed from again on load' % (p, show(v)[:100]))
         # R2: locals of the resolved __init__ that collide with attributes
         args, local = code_varnames(fd)
         stores = self_attr_stores(prog, cq)
@@ -710,24 +730,40 @@ def r5_model(check, prog):
                 c['name'] in (MODEL, 'cls')]
         okf = len(ctor) == 1
         if okf:
-            t = dict(ctor[0]['kwargs'])['**']
-            upds = []
-            while t[0] == 'mut' and t[2] == 'update':
-                upds.append(t[3][0])
-                t = t[1]
-            lit = dict((k[1], x) for k, x in t[1]) if t[0] == 'dict' else {}
-            # further saved fields may be handed over under their own name
-            extra_ok = all(
-                x == F(k) or (x[0] == 'call' and x[1] == ('attr', fterm, 'get') and
-                              x[2] and x[2][0] == ('const', k))
-                for k, x in lit.items() if k not in ('scatterer', 'theory'))
-            okf = t[0] == 'dict' and lit.get('scatterer') == scat and \
-                lit.get('theory') == F('theory') and extra_ok and \
-                sorted(show(u) for u in upds) == sorted(show(intern(
-                    ('call', rm, (('idx', F('_maps'), ('const', k)), F('_parameters')),
-                     ()))) for k in ('optics', 'model'))
-            detail = 'constructor keywords %s updated with %s' % (
-                show(t)[:160], [show(u)[:80] for u in upds])
+            # the keyword mapping: a literal, extended by update(read_map(...))
+            # calls and by stores of further saved fields under their own name
+            # (possibly only when the file has them); every alternative must do
+            want_upds = sorted(show(intern(
+                ('call', rm, (('idx', F('_maps'), ('const', k)), F('_parameters')),
+                 ()))) for k in ('optics', 'model'))
+            for t in ite_leaves(dict(ctor[0]['kwargs'])['**']):
+                upds = []
+                items = {}
+                while (t[0] == 'mut' and t[2] == 'update') or \
+                        (t[0] == 'upd' and t[2] == 'item'):
+                    if t[0] == 'mut':
+                        upds.append(t[3][0])
+                    elif t[3][0] == 'const':
+                        items.setdefault(t[3][1], t[4])
+                    else:
+                        items[None] = t[4]
+                    t = t[1]
+                lit = dict((k[1], x) for k, x in t[1]) if t[0] == 'dict' else {}
+                lit.update(items)
+                # further saved fields may be handed over under their own name
+                extra_ok = all(
+                    k is not None and (
+                        x == F(k) or (x[0] == 'call' and x[1] == ('attr', fterm, 'get')
+                                      and x[2] and x[2][0] == ('const', k)))
+                    for k, x in lit.items() if k not in ('scatterer', 'theory'))
+                good = t[0] == 'dict' and lit.get('scatterer') == scat and \
+                    lit.get('theory') == F('theory') and extra_ok and \
+                    sorted(show(u) for u in upds) == want_upds
+                if not good:
+                    okf = False
+                    detail = 'constructor keywords %s updated with %s and %s' % (
+                        show(t)[:160], [show(u)[:80] for u in upds],
+                        {k: show(x)[:40] for k, x in items.items()})
     check.require(okf, 'R5-model-rebuild', 'Model.from_yaml constructor call',
                   'scatterer = saved dummy scatterer rebuilt from read_map(maps'
                   '[scatterer], parameters); theory = the saved theory; the optics and '
@@ -803,15 +839,24 @@ def r5_model(check, prog):
                     splat_maps.append(mk[2][1])
     # constructor call: cls(**kwargs); the literal part of kwargs
     kw_literal = None
+    cond_keys = set()
     for c in it.calls:
         star = dict(c['kwargs']).get('**')
         if star is None or c['name'] not in (MODEL, 'cls'):
             continue
-        t = star
-        while t[0] in ('mut', 'upd', 'copy'):
-            t = t[2] if t[0] == 'copy' else t[1]
-        if t[0] == 'dict':
-            kw_literal = const_keys(t)
+        # keys of the literal on every alternative; keys stored only when the
+        # file has them (`if k in fields: kwargs[k] = fields[k]`) are supplied
+        # to the classes that write them and to no other
+        for t in ite_leaves(star):
+            while t[0] in ('mut', 'upd', 'copy'):
+                if t[0] == 'upd' and t[2] == 'item' and t[3][0] == 'const':
+                    cond_keys.add(t[3][1])
+                t = t[2] if t[0] == 'copy' else t[1]
+            if t[0] == 'dict':
+                ks = const_keys(t)
+                if ks is not None:
+                    kw_literal = list(ks) if kw_literal is None else \
+                        [k for k in kw_literal if k in ks]
     if kw_literal is None:
         raise AnalysisError('Model.from_yaml: cannot find the kwargs literal')
     check.floor('maps splatted into the model constructor', len(splat_maps), 1)
@@ -849,7 +894,7 @@ def r5_model(check, prog):
                           '', prog.loc(owner, ifd),
                           fail_detail='from_yaml passes %s= which %s.__init__ does '
                           'not accept' % (key, short))
-        supplied = set(kw_literal)
+        supplied = set(kw_literal) | cond_keys
         for mname in splat_maps:
             if mname not in mk:
                 check.bad('R5-ctor-accepts', '%s maps[%s]' % (short, mname),
